@@ -231,6 +231,7 @@ theorem handle_reject (cfg : Cfg) (st : PState) (r : Req) (h : isReject (handle 
   | enable => simp [handle, isReject] at h
   | disable => simp only [handle] at h ⊢; split <;> simp_all [isReject]
   | advance ms => simp [handle, isReject] at h
+  | redefine d => simp [handle, isReject] at h
 
 theorem step_reject (cfg : Cfg) (st : PState) (r : Req) (hs : Settled st) (h : isReject (step cfg st r).2 = true) :
     (step cfg st r).1 = st := by
@@ -418,19 +419,22 @@ def Good (d0 : PortDef) (x : JVal) : Prop :=
 def PendGood (d0 : PortDef) (p : Nat × JVal) : Prop :=
   ∃ v, v.isJson ∧ InDomain d0 v ∧ p.2 = adapt Cfg.repaired d0 v
 
-def Inv (d0 : PortDef) (st : PState) : Prop :=
-  (∃ e, st.d = { d0 with enabled := e }) ∧ (∀ x, x ∈ st.calls → Good d0 x) ∧ (∀ p, p ∈ st.pend → PendGood d0 p)
+/-- `pre` = what the driver had been handed before the definition `d0` came into force. -/
+def Inv (d0 : PortDef) (pre : List JVal) (st : PState) : Prop :=
+  (∃ e, st.d = { d0 with enabled := e }) ∧ (∃ new, st.calls = pre ++ new ∧ ∀ x, x ∈ new → Good d0 x) ∧
+  (∀ p, p ∈ st.pend → PendGood d0 p)
 
 theorem good_legit (d0 : PortDef) (x : JVal) (hwf : WF d0) (htw : TwRespectsJson d0) (h : Good d0 x) :
     LegitCall d0 x := by
   obtain ⟨v, hj, hd, hp⟩ := h
   exact ⟨v, hj, hd, (performWrite_spec d0 v hwf htw hd).2 x hp⟩
 
-theorem inv_flush (d0 : PortDef) (st : PState) (h : Inv d0 st) : Inv d0 (flush st) := by
-  obtain ⟨⟨e, he⟩, hc, hp⟩ := h
-  refine ⟨⟨e, he⟩, ?_, ?_⟩
+theorem inv_flush (d0 : PortDef) (pre : List JVal) (st : PState) (h : Inv d0 pre st) : Inv d0 pre (flush st) := by
+  obtain ⟨⟨e, he⟩, ⟨new, hnew, hc⟩, hp⟩ := h
+  refine ⟨⟨e, he⟩, ⟨new ++ (st.pend.filter (fun p => p.1 ≤ st.now)).filterMap (fun p => performWrite st.d p.2), ?_, ?_⟩, ?_⟩
+  · simp [flush, hnew, List.append_assoc]
   · intro x hx
-    simp only [flush, List.mem_append, List.mem_filterMap, List.mem_filter] at hx
+    simp only [List.mem_append, List.mem_filterMap, List.mem_filter] at hx
     rcases hx with hx | ⟨p, ⟨hp1, _⟩, hw⟩
     · exact hc x hx
     · obtain ⟨v, hj, hd, hv⟩ := hp p hp1
@@ -442,9 +446,10 @@ theorem inv_flush (d0 : PortDef) (st : PState) (h : Inv d0 st) : Inv d0 (flush s
     simp only [flush, List.mem_filter] at hp1
     exact hp p hp1.1
 
-theorem inv_handle (d0 : PortDef) (st : PState) (r : Req) (hwf : WF d0) (h : Inv d0 st) (hj : r.isJson) :
-    Inv d0 (handle Cfg.repaired st r).1 := by
-  obtain ⟨⟨e, he⟩, hc, hp⟩ := h
+theorem inv_handle (d0 : PortDef) (pre : List JVal) (st : PState) (r : Req) (hwf : WF d0) (h : Inv d0 pre st)
+    (hj : r.isJson) (hk : r.keepsDef) : Inv d0 pre (handle Cfg.repaired st r).1 := by
+  have h0 := h
+  obtain ⟨⟨e, he⟩, ⟨new, hnew, hc⟩, hp⟩ := h
   have hwf' : WF st.d := by rw [he]; exact hwf
   have hdom : ∀ v, InDomain st.d v ↔ InDomain d0 v := by intro v; rw [he]; exact Iff.rfl
   have hpw : ∀ v, performWrite st.d v = performWrite d0 v := by intro v; rw [he]; rfl
@@ -454,72 +459,115 @@ theorem inv_handle (d0 : PortDef) (st : PState) (r : Req) (hwf : WF d0) (h : Inv
     have hs := handleValue_spec st known v hwf' hj
     simp only [handle]
     cases hk : known with
-    | false => rw [hk] at hs; rw [hs.1 rfl]; exact ⟨⟨e, he⟩, hc, hp⟩
+    | false => rw [hk] at hs; rw [hs.1 rfl]; exact h0
     | true =>
       rw [hk] at hs
       by_cases hd : InDomain st.d v
       · cases hen : st.d.enabled with
-        | false => rw [hs.2.2.1 rfl hd hen]; exact ⟨⟨e, he⟩, hc, hp⟩
+        | false => rw [hs.2.2.1 rfl hd hen]; exact h0
         | true =>
           cases hw : st.d.writable with
-          | false => rw [hs.2.2.2.1 rfl hd hen hw]; exact ⟨⟨e, he⟩, hc, hp⟩
+          | false => rw [hs.2.2.2.1 rfl hd hen hw]; exact h0
           | true =>
             cases hpf : performWrite st.d (adapt Cfg.repaired st.d v) with
-            | none => rw [hs.2.2.2.2.1 rfl hd hen hw hpf]; exact ⟨⟨e, he⟩, hc, hp⟩
+            | none => rw [hs.2.2.2.2.1 rfl hd hen hw hpf]; exact h0
             | some x =>
               rw [hs.2.2.2.2.2 rfl hd hen hw x hpf]
-              refine ⟨⟨e, he⟩, ?_, hp⟩
+              refine ⟨⟨e, he⟩, ⟨new ++ [x], by simp [hnew, List.append_assoc], ?_⟩, hp⟩
               intro y hy
               simp only [List.mem_append, List.mem_singleton] at hy
               rcases hy with hy | rfl
               · exact hc y hy
               · exact ⟨v, hj, (hdom v).1 hd, by rw [← hpw, ← had]; exact hpf⟩
-      · rw [hs.2.1 rfl hd]; exact ⟨⟨e, he⟩, hc, hp⟩
+      · rw [hs.2.1 rfl hd]; exact h0
   | sequence known values delays rep =>
     have hs := handleSeq_spec st known values delays rep hwf' hj
     simp only [handle]
     cases hk : known with
-    | false => rw [hk] at hs; rw [hs.1 rfl]; exact ⟨⟨e, he⟩, hc, hp⟩
+    | false => rw [hk] at hs; rw [hs.1 rfl]; exact h0
     | true =>
       rw [hk] at hs
       cases hsh : shapeOk Cfg.repaired values delays rep with
-      | false => rw [hs.2.1 rfl hsh]; exact ⟨⟨e, he⟩, hc, hp⟩
+      | false => rw [hs.2.1 rfl hsh]; exact h0
       | true =>
         by_cases hl : values.length = delays.length
         · by_cases hd : ∀ v, v ∈ values → InDomain st.d v
           · cases hen : st.d.enabled with
-            | false => rw [hs.2.2.2.2.1 rfl hsh hl hd hen]; exact ⟨⟨e, he⟩, hc, hp⟩
+            | false => rw [hs.2.2.2.2.1 rfl hsh hl hd hen]; exact h0
             | true =>
               cases hw : st.d.writable with
-              | false => rw [hs.2.2.2.2.2.1 rfl hsh hl hd hen hw]; exact ⟨⟨e, he⟩, hc, hp⟩
+              | false => rw [hs.2.2.2.2.2.1 rfl hsh hl hd hen hw]; exact h0
               | true =>
                 rw [hs.2.2.2.2.2.2 rfl hsh hl hd hen hw]
-                refine ⟨⟨e, he⟩, hc, ?_⟩
+                refine ⟨⟨e, he⟩, ⟨new, hnew, hc⟩, ?_⟩
                 intro p hp1
                 have := mem_passes _ _ _ _ _ _ hp1
                 simp only [List.mem_map] at this
                 obtain ⟨v, hv, hpv⟩ := this
                 exact ⟨v, hj v hv, (hdom v).1 (hd v hv), by rw [← hpv, had]⟩
-          · rw [hs.2.2.2.1 rfl hsh hl hd]; exact ⟨⟨e, he⟩, hc, hp⟩
-        · rw [hs.2.2.1 rfl hsh hl]; exact ⟨⟨e, he⟩, hc, hp⟩
-  | enable => exact ⟨⟨true, by simp [handle, he]⟩, hc, hp⟩
+          · rw [hs.2.2.2.1 rfl hsh hl hd]; exact h0
+        · rw [hs.2.2.1 rfl hsh hl]; exact h0
+  | enable => exact ⟨⟨true, by simp [handle, he]⟩, ⟨new, hnew, hc⟩, hp⟩
   | disable =>
     simp only [handle]
     split
-    · exact ⟨⟨false, by simp [he]⟩, hc, by simp⟩
-    · exact ⟨⟨e, he⟩, hc, hp⟩
-  | advance ms => exact ⟨⟨e, by simp [handle, he]⟩, hc, hp⟩
+    · exact ⟨⟨false, by simp [he]⟩, ⟨new, hnew, hc⟩, by simp⟩
+    · exact h0
+  | advance ms => exact ⟨⟨e, by simp [handle, he]⟩, ⟨new, hnew, hc⟩, hp⟩
+  | redefine d => exact absurd hk (by simp [Req.keepsDef])
 
-theorem inv_step (d0 : PortDef) (st : PState) (r : Req) (hwf : WF d0) (h : Inv d0 st) (hj : r.isJson) :
-    Inv d0 (step Cfg.repaired st r).1 := by
-  simp only [step]; exact inv_flush d0 _ (inv_handle d0 st r hwf h hj)
+theorem inv_step (d0 : PortDef) (pre : List JVal) (st : PState) (r : Req) (hwf : WF d0) (h : Inv d0 pre st)
+    (hj : r.isJson) (hk : r.keepsDef) : Inv d0 pre (step Cfg.repaired st r).1 := by
+  simp only [step]; exact inv_flush d0 pre _ (inv_handle d0 pre st r hwf h hj hk)
 
-theorem inv_run (d0 : PortDef) (st : PState) (rs : List Req) (hwf : WF d0) (h : Inv d0 st)
-    (hj : ∀ r, r ∈ rs → r.isJson) : Inv d0 (run Cfg.repaired st rs) := by
+theorem inv_run (d0 : PortDef) (pre : List JVal) (st : PState) (rs : List Req) (hwf : WF d0) (h : Inv d0 pre st)
+    (hj : ∀ r, r ∈ rs → r.isJson ∧ r.keepsDef) : Inv d0 pre (run Cfg.repaired st rs) := by
   induction rs generalizing st with
   | nil => exact h
   | cons r rs ih =>
     simp only [run]
-    exact ih _ (inv_step d0 st r hwf h (hj r (by simp))) (fun r' hr' => hj r' (by simp [hr']))
+    exact ih _ (inv_step d0 pre st r hwf h (hj r (by simp)).1 (hj r (by simp)).2) (fun r' hr' => hj r' (by simp [hr']))
+
+/-- The state right after a redefinition satisfies the invariant for the new definition, whatever happened before. -/
+theorem inv_redefine (st : PState) (d : PortDef) : Inv d (step Cfg.repaired st (.redefine d)).1.calls
+    (step Cfg.repaired st (.redefine d)).1 := by
+  refine ⟨⟨d.enabled, by simp [step, handle, flush]⟩, ⟨[], by simp, by simp⟩, ?_⟩
+  intro p hp
+  simp [step, handle, flush] at hp
+
+/-! ### bursts of value requests: one driver call per accepted request, in request order -/
+
+/-- What a value request makes the driver receive on a port of definition `d`: nothing unless it is served. -/
+def served (cfg : Cfg) (d : PortDef) (r : Bool × JVal) : Option JVal :=
+  if r.1 && d.enabled && d.writable then
+    match validateValue cfg d r.2 with
+    | .ok v' => performWrite d v'
+    | .error _ => none
+  else none
+
+theorem handleValue_calls (cfg : Cfg) (st : PState) (k : Bool) (v : JVal) :
+    (handleValue cfg st k v).1 = { st with calls := st.calls ++ (served cfg st.d (k, v)).toList } := by
+  simp only [handleValue, served]
+  cases k <;> simp
+  cases hv : validateValue cfg st.d v <;> simp
+  cases st.d.enabled <;> simp
+  cases st.d.writable <;> simp
+  cases performWrite st.d _ <;> simp
+
+theorem run_values_calls (cfg : Cfg) (st : PState) (rs : List (Bool × JVal)) (hp : st.pend = []) :
+    run cfg st (rs.map fun r => .value r.1 r.2) =
+      { st with calls := st.calls ++ rs.filterMap (served cfg st.d) } := by
+  induction rs generalizing st with
+  | nil => simp [run]
+  | cons r rs ih =>
+    simp only [List.map_cons, run, step, handle]
+    rw [handleValue_calls]
+    have hf : flush { st with calls := st.calls ++ (served cfg st.d (r.1, r.2)).toList } =
+        { st with calls := st.calls ++ (served cfg st.d (r.1, r.2)).toList } := by
+      apply flush_settled
+      intro p hp'
+      simp [hp] at hp'
+    rw [hf, ih _ (by simpa using hp)]
+    cases hs : served cfg st.d (r.1, r.2) <;> simp [hs, List.append_assoc]
 
 end QtVerif.ValueDomain
